@@ -250,7 +250,7 @@ fn parse_vc(path: &Path, mc: &mut ModContract) {
                         _ => die(&format!("{}:{}: @at before|after \"pattern\" [nth]", fname, ln)),
                     };
                     let (pat, rest) = parse_quoted(p.next().unwrap_or("")).unwrap_or_else(|| die(&format!("{}:{}: @at needs a quoted pattern", fname, ln)));
-                    let nth = rest.trim().parse::<usize>().unwrap_or(0);
+                    let nth = if rest.trim() == "last" { usize::MAX } else { rest.trim().parse::<usize>().unwrap_or(0) };
                     sec = Sec::At(before, pat, nth);
                 }
                 "loop" => {
@@ -641,7 +641,10 @@ fn main() {
     let mut out_dir = PathBuf::new();
     let mut meta_dir = PathBuf::new();
     let mut vc_dirs: Vec<PathBuf> = vec![];
-    let mut spec_dir: Option<PathBuf> = None;
+    let mut spec_dirs: Vec<PathBuf> = vec![];
+    let mut canary = false;
+    let mut extra_mods: Vec<String> = vec![];
+    let mut no_lib = false;
     let mut i = 1;
     while i < args.len() {
         match args[i].as_str() {
@@ -649,7 +652,10 @@ fn main() {
             "--out" => { out_dir = PathBuf::from(&args[i + 1]); i += 2; }
             "--meta" => { meta_dir = PathBuf::from(&args[i + 1]); i += 2; }
             "--vc" => { vc_dirs.push(PathBuf::from(&args[i + 1])); i += 2; }
-            "--spec" => { spec_dir = Some(PathBuf::from(&args[i + 1])); i += 2; }
+            "--spec" => { spec_dirs.push(PathBuf::from(&args[i + 1])); i += 2; }
+            "--canary" => { canary = true; i += 1; }
+            "--extra-mod" => { extra_mods.push(args[i + 1].clone()); i += 2; }
+            "--no-lib" => { no_lib = true; i += 1; }
             a => die(&format!("unknown argument {}", a)),
         }
     }
@@ -673,7 +679,7 @@ fn main() {
         .collect();
     files.sort();
     let mut spec_mods: Vec<String> = vec![];
-    if let Some(sd) = &spec_dir {
+    for sd in &spec_dirs {
         let mut sf: Vec<PathBuf> = fs::read_dir(sd).unwrap().filter_map(|e| e.ok().map(|e| e.path())).filter(|p| p.extension().map(|e| e == "rs").unwrap_or(false)).collect();
         sf.sort();
         for p in sf {
@@ -747,7 +753,7 @@ fn main() {
             let last_inner = file.attrs.iter().map(|a| src.range(a).1).max().unwrap_or(0);
             ed.ins(last_inner, std::mem::take(&mut extra), Origin::Vc { file: "splice:R1".into(), line: 0, func: String::new(), kind: "r1".into(), label: String::new() });
             let mut mods = String::from("\n");
-            for m in &spec_mods {
+            for m in spec_mods.iter().chain(extra_mods.iter()) {
                 mods.push_str(&format!("pub mod {};\n", m));
             }
             ed.ins(src.text.len(), mods, Origin::Vc { file: "splice:R1".into(), line: 0, func: String::new(), kind: "r1".into(), label: String::new() });
@@ -899,11 +905,19 @@ fn main() {
                     ed.ins(f.sig_end, format!("{}\n    ,\n", c.t.text), vc_origin(&c.t, &fq, "requires", &c.label));
                 }
             }
+            if canary && f.block.is_some() && !fc.attrs.iter().any(|a| a.text.contains("external")) {
+                if fc.ensures.is_empty() {
+                    ed.ins(f.sig_end, "\n    ensures\n".into(), Origin::Vc { file: fc.file.clone(), line: fc.line, func: fq.clone(), kind: "kw".into(), label: String::new() });
+                }
+            }
             if !fc.ensures.is_empty() {
                 ed.ins(f.sig_end, "\n    ensures\n".into(), Origin::Vc { file: fc.file.clone(), line: fc.line, func: fq.clone(), kind: "kw".into(), label: String::new() });
                 for c in &fc.ensures {
                     ed.ins(f.sig_end, format!("{}\n    ,\n", c.t.text), vc_origin(&c.t, &fq, "ensures", &c.label));
                 }
+            }
+            if canary && f.block.is_some() && !fc.attrs.iter().any(|a| a.text.contains("external")) {
+                ed.ins(f.sig_end, "        false\n    ,\n".into(), Origin::Vc { file: fc.file.clone(), line: fc.line, func: fq.clone(), kind: "ensures".into(), label: "CANARY".into() });
             }
             if !fc.prologue.is_empty() {
                 let (open, _) = f.block.unwrap_or_else(|| die(&format!("{}:{}: @prologue on bodiless {}", fc.file, fc.line, fc.path)));
@@ -923,10 +937,12 @@ fn main() {
                 }
                 // ignore occurrences inside removed cfg(test) statements
                 let occ: Vec<usize> = occ.into_iter().filter(|o| !f.cfg_test_stmts.iter().any(|(s, e)| o >= s && o < e)).collect();
-                if at.nth >= occ.len() {
+                if at.nth == usize::MAX && !occ.is_empty() {
+                    // "last": handled below
+                } else if at.nth >= occ.len() {
                     die(&format!("{}:{}: @at pattern {:?} (#{}) not found in {} (lost anchor)", at.t.file, at.t.line, at.pat, at.nth, fc.path));
                 }
-                let o = occ[at.nth];
+                let o = if at.nth == usize::MAX { *occ.last().unwrap_or_else(|| die(&format!("{}:{}: @at pattern {:?} not found in {} (lost anchor)", at.t.file, at.t.line, at.pat, fc.path))) } else { occ[at.nth] };
                 // innermost statement containing o
                 let mut best: Option<(usize, usize)> = None;
                 for (s, e) in &f.stmts {
